@@ -45,7 +45,8 @@ class Session:
         st = harness.settings(encrypted=enc, min_length=min_length, max_length=max_length, cipher=cipher, hashing=hashing)
         cache_of = (lambda u: cache.get(u) if isinstance(cache, dict) else cache)
         w = self.world
-        fk = lambda: {'encryption': {'kdf': dict(harness.FAST_KDF)}}  # noqa: E731
+        # odd seeds create the additional keys WITHOUT KDF settings (the default path of add-key)
+        fk = (lambda: None) if seed % 2 else (lambda: {'encryption': {'kdf': dict(harness.FAST_KDF)}})  # noqa: E731
         w.init('a', b'pw-a', st, cache=cache_of('a'))
         if graph == 'plain':
             w.users['b'] = harness.User('b', None, None, cache_of('b'))
@@ -93,6 +94,8 @@ class Session:
         self.init_objs = dict(self.store.objs)
         self.np = 1
         self.dirty0 = []
+        self.creator = {}      # snapshot location -> user who took it
+        self.same_key = {u: [v for v in self.users if w.users[v].key == w.users[u].key and w.users[v].password == w.users[u].password] for u in self.users}
         self._lock = threading.Lock()
 
     def fork_at(self, nevents, root, crash_clients=()):
@@ -187,7 +190,7 @@ class Session:
         if isinstance(o.exc, membackend.Killed):
             self._marker('crash', {'p': p}, be.client_id)
         else:
-            self._marker('end', {'p': p, 'ok': bool(o.ok), 'fault': bool(fault), 'etype': o.etype}, be.client_id)
+            self._marker('end', {'p': p, 'ok': bool(o.ok), 'fault': bool(fault), 'etype': o.etype, 'hung': bool(getattr(o, 'hung', False))}, be.client_id)
         return o
 
     # ------------------------------------------------------------ commands
@@ -452,7 +455,7 @@ class Session:
                             'want': sorted(name.get('want', []))})
                 continue
             if kind == 'end':
-                out.append({'a': 'end', 'p': name['p'], 'ok': name['ok'], 'fault': name['fault']})
+                out.append({'a': 'end', 'p': name['p'], 'ok': name['ok'], 'fault': name['fault'], 'hung': bool(name.get('hung'))})
                 procs.pop(client, None)
                 continue
             if kind == 'crash':
@@ -479,7 +482,8 @@ class Session:
                 s = self.sids.get(name)
                 if kind == 'put':
                     out.append({'a': 'puts', 'p': p, 's': s, 'want': sorted(binfo.get('want', [])),
-                                'wellformed': self.defs[s - 1]['wellformed'], 'allempty': bool(binfo.get('allempty'))})
+                                'wellformed': self.defs[s - 1]['wellformed'], 'allempty': bool(binfo.get('allempty')),
+                                'decoders': self.defs[s - 1]['readers'], 'intended': self.same_key.get(binfo.get('u'), [])})
                 elif kind == 'del' and s is not None:
                     out.append({'a': 'dels', 'p': p, 's': s})
             else:
@@ -528,7 +532,7 @@ class Content:
         return data
 
 
-def random_history(sess, n, *, names=8, p_snapshot=0.4, p_overlap=0.08, p_delete=0.2, p_clean=0.12, p_crash=0.0, reads=True):
+def random_history(sess, n, *, names=8, p_snapshot=0.4, p_overlap=0.08, p_delete=0.2, p_clean=0.12, p_crash=0.0, p_overlap_fail=0.35, reads=True):
     """run n random commands on the session; returns list of short descriptions"""
     r = sess.rng
     content = Content(r)
@@ -575,7 +579,16 @@ def random_history(sess, n, *, names=8, p_snapshot=0.4, p_overlap=0.08, p_delete
             us = [r.choice(sess.users), r.choice(sess.users)]
             picks = [r.sample(sorted(live), r.randrange(1, len(live) + 1)) for _ in us]
             rd = sess.readable(us[1])
-            if rd and r.random() < 0.4:
+            if r.random() < p_overlap_fail:
+                # one of the two clients hits a backend call that fails for good while the other one is running
+                for f in picks[0][:2]:
+                    live[f] = sess.write_file(f, content.make() + r.randbytes(300))
+                be = sess.world.backend(gate=StallThenFail(r.randrange(2, 7)))
+                os_ = harness.run_parallel([
+                    (lambda u=us[0], pk=picks[0], be=be: sess.snapshot(u, [live[f] for f in pk], p=1, backend=be, fault=True)),
+                    (lambda u=us[1], pk=picks[0]: sess.snapshot(u, [live[f] for f in pk], p=2))])
+                desc.append('overlap(failing snapshot(%s,%s) || snapshot(%s,same files))->%s' % (us[0], picks[0], us[1], [getattr(o, 'etype', repr(o)) for o in os_]))
+            elif rd and r.random() < 0.4:
                 # a restore of one existing snapshot by name while another client takes a snapshot
                 nm = sess.snapname[r.choice(rd)]
                 os_ = harness.run_parallel([
@@ -657,6 +670,25 @@ class FailNth:
             if self.i == self.n:
                 self.fired = (op, name)
                 raise (self.exc or OSError('injected permanent failure of %s(%s)' % (op, name)))
+
+
+class StallThenFail:
+    """gate: the n-th chunk upload of this client stalls for a moment and then fails for good (an exception, the process survives)"""
+
+    def __init__(self, n, stall=0.05):
+        self.n, self.i, self.stall = n, 0, stall
+        self.lock = threading.Lock()
+
+    def __call__(self, be, op, name):
+        import time
+        if op != 'upload_stream':
+            return
+        with self.lock:
+            self.i += 1
+            hit = self.i == self.n
+        if hit:
+            time.sleep(self.stall)
+            raise OSError('injected permanent failure of upload #%d' % self.n)
 
 
 class KillAfter:
